@@ -251,12 +251,23 @@ func vtC11BuildPod(p vtC11Pod, featNames []string, plain corev1.ResourceName, ba
 		b, _ := json.Marshal(names)
 		pod.Annotations[apiext.AnnotationPodEvictPolicy] = string(b)
 	}
+	// the annotation is an int32 STRING, read in base 10: users also write it zero padded or with
+	// an explicit sign; base prefixes and digit separators are not numbers (-> implicit 0)
 	if p.evprio != 0 {
-		pod.Annotations[apiext.AnnotationPodEvictionPriority] = strconv.FormatInt(p.evprio, 10)
+		v := strconv.FormatInt(p.evprio, 10)
+		switch (p.id + p.evprio%7 + 7) % 4 {
+		case 1:
+			v = fmt.Sprintf("%03d", p.evprio)
+		case 2:
+			if p.evprio > 0 {
+				v = "+" + v
+			}
+		}
+		pod.Annotations[apiext.AnnotationPodEvictionPriority] = v
 	} else if p.id%3 == 1 {
-		pod.Annotations[apiext.AnnotationPodEvictionPriority] = "abc"
+		pod.Annotations[apiext.AnnotationPodEvictionPriority] = []string{"abc", "0x10", "1_0", "0b11", "0o17"}[(p.id/3+p.prio%5+5)%5]
 	} else if p.id%3 == 2 {
-		pod.Annotations[apiext.AnnotationPodEvictionPriority] = "0"
+		pod.Annotations[apiext.AnnotationPodEvictionPriority] = []string{"0", "000", "-0"}[(p.id/3)%3]
 	}
 	if !p.prioNil {
 		v := int32(p.prio)
@@ -425,8 +436,8 @@ func vtC11GenPods(rnd *rand.Rand, unit int64, allNil bool, boundary bool) []int6
 			prio = -int64(1 + rnd.Intn(50))
 		}
 		evprio := int64(0)
-		if rnd.Intn(10) < 3 {
-			evprio = []int64{-1, 5, 100}[rnd.Intn(3)]
+		if rnd.Intn(10) < 4 {
+			evprio = []int64{-1, 5, 100, 7, 8, 9, 10, 12, 64}[rnd.Intn(9)]
 		}
 		lab := []int64{1000, 2000, 3000, -5}[rnd.Intn(4)]
 		hasLab := rnd.Intn(10) < 3
